@@ -2,7 +2,7 @@
    Property theorems only: each proof is one application of a lemma proved in Proofs/, followed by Print Assumptions. *)
 From Coq Require Import ZArith List Bool.
 From CS Require Repr.
-From CS Require Import Actions NAdvance Multistage Exec Sched RunFacts Projections BasicInv MultistageRun TLBridge.
+From CS Require Import Actions NAdvance Multistage Exec Sched RunFacts Projections BasicInv MultistageRun TLBridge MixBridge.
 Import ListNotations.
 Open Scope Z_scope.
 
@@ -46,6 +46,16 @@ Proof.
   exists o0, m, ls. auto using mon_ok_no_err.
 Qed.
 Print Assumptions C18_twolevel.
+
+(* MixedCheckpointSchedule: every N, every unit count, both storages, both planner paths (memoised / tabulated) *)
+Theorem C18_mixed : forall (N s : Z) (sg : storage) (tab : bool) (k : nat),
+  1 <= N -> 0 <= s -> (2 <= N -> 1 <= s) -> sg = RAM \/ sg = DISK ->
+  exists o0 m ls, run_case (PMixed N s sg tab) (pmx N (Z.min s (N - 1)) sg) (repeat Next k) = Ok (o0, m, ls) /\ no_err err_C18 m /\ no_raise ls.
+Proof.
+  intros N s sg tab k H1 H2 H3 H4. destruct (mixed_run N s sg tab k H1 H2 H3 H4) as (o0 & m & ls & E & Hm & Hl).
+  exists o0, m, ls. auto using mon_ok_no_err.
+Qed.
+Print Assumptions C18_mixed.
 
 (* decimal printing of integers parses back *)
 Module M_C18_z_roundtrip.
